@@ -3,7 +3,7 @@
 From Coq Require Import List NArith Bool Sorted Lia Arith.
 From RV Require Import Base.SortedMap Base.SortedMapP Btree.Tree Btree.TreeP Btree.Read Btree.ReadP
   Btree.Mutator Btree.MutatorP Btree.DeleteP Btree.Scan Btree.ScanTree Btree.ScanTreeP Btree.SpliceP
-  Btree.RangeMut Btree.SpliceTreeP Btree.ScanP.
+  Btree.RangeMut Btree.SpliceTreeP Btree.ScanP Btree.ScanBackP.
 Import ListNotations.
 
 Section RetainTreeP.
@@ -160,5 +160,69 @@ Section RetainTreeP.
     destruct (ScanP.nexts _ _ _ _ _ _ _ _ _ _ _ _ _ n _) as [os x].
     destruct (ext_run p (repeat true n) _) as [os' st]. destruct H as (H1 & H2 & H3).
     split; [exact H1|]. split; [exact H2|]. rewrite <- contents_abs. exact H3.
+  Qed.
+
+  (* ---- the backward direction: one more store law, then extract_if / extract_from_if consumed from the BACK *)
+  Lemma t_more_prev (bt : @btree K V) j : ok bt -> j < length (bt_leaves bt) ->
+    t_more_children bt j DPrev = true -> 1 <= j /\ t_more_children bt (j - 1) DNext = true.
+  Proof.
+    intros Hi Hj Hm. assert (Hne : bt_leaves bt <> []) by (destruct (bt_leaves bt); [cbn in Hj; lia|discriminate]).
+    destruct (root_of bt Hi Hne) as (t & h & Er & Hinv & _ & Hf & Hfe).
+    unfold t_more_children, bt_leaves in *. rewrite Er in *.
+    destruct (parent_pos (fuel_of t) t j) as [[c n]|] eqn:Ep; [|discriminate].
+    destruct t as [es|c0 rest]; [destruct (fuel_of (Leaf es)); cbn in Ep; discriminate|].
+    destruct (branch_height _ _ Hinv ltac:(eauto)) as [h' ->].
+    destruct (block cmp laws ksize vsize fixed_k fixed_v page_size sep Hsep (fuel_of (Branch c0 rest)) _ h' None None j Hinv ltac:(lia) Hj)
+      as (b & m & B1 & B2 & B3 & _).
+    pose proof (B3 (j - b) ltac:(lia)) as B3j. replace (b + (j - b)) with j in B3j by lia. rewrite Ep in B3j. inversion B3j; subst.
+    apply Nat.ltb_lt in Hm. split; [lia|].
+    pose proof (B3 (j - 1 - b) ltac:(lia)) as B3p. replace (b + (j - 1 - b)) with (j - 1) in B3p by lia. rewrite B3p.
+    apply Nat.ltb_lt. lia.
+  Qed.
+
+  (* a consumption script over the tree: true = next(), false = next_back() *)
+  Definition t_xrun (p : K -> V -> bool) :=
+    ScanBackP.xrun cmp (@bt_leaves K V) t_seek t_flush t_splice (@t_has_parent K V) (@t_more_children K V)
+      (t_underfilling ksize vsize fixed_k fixed_v page_size) (t_packs ksize vsize fixed_k fixed_v page_size)
+      entry_eqb p (fun bt => S (length (concat (bt_leaves bt)))) 4.
+
+  Lemma t_xrun_true lo hi p n x : t_xrun p (repeat true n) x = t_nexts lo hi p n x.
+  Proof.
+    revert x. induction n as [|n IH]; intros x; [reflexivity|].
+    unfold t_xrun, t_nexts in *. cbn [repeat ScanBackP.xrun ScanP.nexts].
+    match goal with |- (let '(o, x1) := ?E in _) = _ => destruct E as [o x1] end.
+    rewrite IH. reflexivity.
+  Qed.
+
+  Theorem t_extract_backward_refines (bt : @btree K V) lo hi p n : ok bt ->
+    let '(os, x) := t_xrun p (repeat false n) (t_extract_new bt lo hi) in
+    let '(os', st) := ext_run p (repeat false n) (ext_begin cmp (abs_tree bt) lo hi) in
+    os = os' /\
+    ok (t_extract_close cmp ksize vsize fixed_k fixed_v page_size sep entry_eqb x) /\
+    abs_tree (t_extract_close cmp ksize vsize fixed_k fixed_v page_size sep entry_eqb x) = ext_finish st.
+  Proof.
+    intros Hi. unfold t_xrun, t_extract_new, t_extract_close.
+    pose proof (extract_backward_ok cmp laws (@bt_leaves K V) t_seek t_flush t_splice (@t_has_parent K V) (@t_more_children K V)
+                  (t_underfilling ksize vsize fixed_k fixed_v page_size) (t_packs ksize vsize fixed_k fixed_v page_size)
+                  ok t_ok_leaves t_seek_ok t_flush_ok t_splice_ok t_more_prev
+                  ltac:(intros; reflexivity) entry_eqb lo hi p (fun bt => S (length (concat (bt_leaves bt))))
+                  ltac:(intros; unfold ScanP.contents; lia) 4 ltac:(lia) bt n Hi) as H.
+    unfold ScanP.contents in H. rewrite <- (contents_abs bt). unfold ScanTreeP.contents.
+    destruct (ScanBackP.xrun _ _ _ _ _ _ _ _ _ _ _ _ _ (repeat false n) _) as [os x].
+    destruct (ext_run p (repeat false n) _) as [os' st]. destruct H as (H1 & H2 & H3).
+    split; [exact H1|]. split; [exact H2|]. rewrite <- contents_abs. exact H3.
+  Qed.
+
+  (* the same two theorems for a uniform script: all next() or all next_back() *)
+  Theorem t_extract_onedir_refines (bt : @btree K V) lo hi p (front : bool) n : ok bt ->
+    let '(os, x) := t_xrun p (repeat front n) (t_extract_new bt lo hi) in
+    let '(os', st) := ext_run p (repeat front n) (ext_begin cmp (abs_tree bt) lo hi) in
+    os = os' /\
+    ok (t_extract_close cmp ksize vsize fixed_k fixed_v page_size sep entry_eqb x) /\
+    abs_tree (t_extract_close cmp ksize vsize fixed_k fixed_v page_size sep entry_eqb x) = ext_finish st.
+  Proof.
+    intros Hi. destruct front.
+    - rewrite (t_xrun_true lo hi). exact (t_extract_forward_refines bt lo hi p n Hi).
+    - exact (t_extract_backward_refines bt lo hi p n Hi).
   Qed.
 End RetainTreeP.
